@@ -693,6 +693,22 @@ class DocTest:
         Returns:
             Dict : summary
         """
+        # Parts compiled in "single" mode echo values via sys.displayhook,
+        # which binds ``builtins._``. Restore it afterwards, otherwise the
+        # last echoed value of this doctest is visible to every later one.
+        import builtins
+        missing = object()
+        prev_underscore = getattr(builtins, '_', missing)
+        try:
+            return self._run(verbose=verbose, on_error=on_error)
+        finally:
+            if prev_underscore is missing:
+                if hasattr(builtins, '_'):
+                    del builtins._
+            else:
+                builtins._ = prev_underscore
+
+    def _run(self, verbose=None, on_error=None):
         on_error = self.config.getvalue('on_error', on_error)
         verbose = self.config.getvalue('verbose', verbose)
         if on_error not in {'raise', 'return'}:
